@@ -188,7 +188,7 @@ pub fn run_wire(ctx: &Ctx) {
 
 pub fn replay(ctx: &Ctx, part: &str, case: &Value) -> bool {
     let dirs = DirPool::new(ctx, "c04w");
-    if part == "wire-tftpc-through-lossy-relay" {
+    if part == "wire-tftpc-through-lossy-relay" || part.starts_with("wire-relay-") {
         return replay_one(ctx, part, case, |c: &RelayCase, o| dirs.with(|d| judge_relay(d, c, o)));
     }
     replay_one(ctx, part, case, |c: &Case, o| dirs.with(|d| judge(d, c, o)))
@@ -208,6 +208,19 @@ pub struct RelayCase {
     pub blk: u32,
     pub ws: u16,
     pub len: usize,
+    /// duplicate the n-th datagram of a direction
+    #[serde(default)]
+    pub dup_to_client: Vec<u32>,
+    #[serde(default)]
+    pub dup_to_server: Vec<u32>,
+    /// hold the n-th datagram of a direction back until the next one of that direction has passed (reordering)
+    #[serde(default)]
+    pub swap_to_client: Vec<u32>,
+    #[serde(default)]
+    pub swap_to_server: Vec<u32>,
+    /// only demand "identical or absent", not completion (more than one loss)
+    #[serde(default)]
+    pub completion_optional: bool,
 }
 
 fn run_relay(dir: &Path, c: &RelayCase) -> Result<(), (String, String)> {
@@ -260,6 +273,9 @@ fn run_relay(dir: &Path, c: &RelayCase) -> Result<(), (String, String)> {
     let mut dropped = 0;
     let mut buf = vec![0u8; 65536];
     let mut exited_at: Option<Instant> = None;
+    let mut held_to_server: Option<Vec<u8>> = None;
+    let mut held_to_client: Option<Vec<u8>> = None;
+    let mut last_release = Instant::now();
     loop {
         if let Ok((n, from)) = front.recv_from(&mut buf) {
             client_addr = Some(from);
@@ -267,8 +283,16 @@ fn run_relay(dir: &Path, c: &RelayCase) -> Result<(), (String, String)> {
             n_to_server += 1;
             if c.drop_to_server.contains(&k) {
                 dropped += 1;
+            } else if c.swap_to_server.contains(&k) && held_to_server.is_none() {
+                held_to_server = Some(buf[..n].to_vec());
             } else {
                 let _ = back.send_to(&buf[..n], srv.addr);
+                if c.dup_to_server.contains(&k) {
+                    let _ = back.send_to(&buf[..n], srv.addr);
+                }
+                if let Some(h) = held_to_server.take() {
+                    let _ = back.send_to(&h, srv.addr);
+                }
             }
         }
         if let Ok((n, _)) = back.recv_from(&mut buf) {
@@ -277,9 +301,27 @@ fn run_relay(dir: &Path, c: &RelayCase) -> Result<(), (String, String)> {
                 n_to_client += 1;
                 if c.drop_to_client.contains(&k) {
                     dropped += 1;
+                } else if c.swap_to_client.contains(&k) && held_to_client.is_none() {
+                    held_to_client = Some(buf[..n].to_vec());
                 } else {
                     let _ = front.send_to(&buf[..n], ca);
+                    if c.dup_to_client.contains(&k) {
+                        let _ = front.send_to(&buf[..n], ca);
+                    }
+                    if let Some(h) = held_to_client.take() {
+                        let _ = front.send_to(&h, ca);
+                    }
                 }
+            }
+        }
+        // a held datagram is not lost: it arrives late if nothing else follows in its direction
+        if last_release.elapsed() > Duration::from_millis(300) {
+            last_release = Instant::now();
+            if let Some(h) = held_to_server.take() {
+                let _ = back.send_to(&h, srv.addr);
+            }
+            if let (Some(h), Some(ca)) = (held_to_client.take(), client_addr) {
+                let _ = front.send_to(&h, ca);
             }
         }
         if exited_at.is_none() {
@@ -301,6 +343,7 @@ fn run_relay(dir: &Path, c: &RelayCase) -> Result<(), (String, String)> {
     }
     let cerr = std::fs::read_to_string(&err_p).unwrap_or_default();
     let serr = srv.stderr_tail();
+    let sout = srv.stdout_text();
     let got = if c.upload { std::fs::read(sdir.join("f.bin")).ok() } else { std::fs::read(cdir.join("out").join("f.bin")).ok() };
     let alive = srv.exit_status().is_none();
     drop(srv);
@@ -311,17 +354,29 @@ fn run_relay(dir: &Path, c: &RelayCase) -> Result<(), (String, String)> {
     if dropped as usize != c.drop_to_client.len() + c.drop_to_server.len() {
         // the transfer ended before the planned datagram existed: nothing was lost, nothing to judge beyond completion
     }
-    if got.as_deref() != Some(&data[..]) {
+    if let Some(g) = &got {
+        // an upload that failed may still have its partial file on the server (the server's worker has not given up yet):
+        // a proper prefix that nobody declared complete is "no completed copy", not a corrupted one
+        let declared_complete = if c.upload { sout.contains("Received f.bin") } else { cerr.trim().is_empty() };
+        let proper_prefix = g.len() < data.len() && g[..] == data[..g.len()];
+        if g != &data && !(proper_prefix && !declared_complete) {
+            return Err(("corrupted-copy".into(), format!("{} through a relay (drops to client {:?} / to server {:?}, dups {:?}/{:?}, swaps {:?}/{:?}): the receiving side holds {} bytes that differ from the {} bytes sent; tftpc stderr {:?}", if c.upload { "upload" } else { "download" }, c.drop_to_client, c.drop_to_server, c.dup_to_client, c.dup_to_server, c.swap_to_client, c.swap_to_server, g.len(), data.len(), cerr.trim())));
+        }
+    }
+    if got.as_deref() != Some(&data[..]) && !c.completion_optional {
         return Err((
             "transfer-failed-after-few-losses".into(),
             format!(
-                "{} of {} bytes through a relay that dropped {} datagram(s) (to client {:?}, to server {:?}; negotiated timeout 1 s, retry budget 6): the receiving side holds {:?} bytes after {:?}; tftpc stderr {:?}; tftpd stderr {}",
+                "{} of {} bytes through a relay that dropped {} datagram(s) (to client {:?}, to server {:?}; dups {:?}/{:?}, swaps {:?}/{:?}; negotiated timeout 1 s, retry budget 6): the receiving side holds nothing after {:?}; tftpc stderr {:?}; tftpd stderr {}",
                 if c.upload { "upload" } else { "download" },
                 data.len(),
                 dropped,
                 c.drop_to_client,
                 c.drop_to_server,
-                got.map(|g| g.len()),
+                c.dup_to_client,
+                c.dup_to_server,
+                c.swap_to_client,
+                c.swap_to_server,
                 t0.elapsed(),
                 cerr.trim(),
                 serr
@@ -333,7 +388,10 @@ fn run_relay(dir: &Path, c: &RelayCase) -> Result<(), (String, String)> {
 
 pub fn judge_relay(dir: &Path, c: &RelayCase, obs: &mut Obs) -> Judge {
     obs.class(if c.upload { "relay-upload" } else { "relay-download" });
-    obs.nontrivial = !c.drop_to_client.is_empty() || !c.drop_to_server.is_empty();
+    obs.nontrivial = !c.drop_to_client.is_empty() || !c.drop_to_server.is_empty() || !c.dup_to_client.is_empty() || !c.dup_to_server.is_empty() || !c.swap_to_client.is_empty() || !c.swap_to_server.is_empty();
+    obs.class_if(!c.dup_to_client.is_empty() || !c.dup_to_server.is_empty(), "relay-duplicates");
+    obs.class_if(!c.swap_to_client.is_empty() || !c.swap_to_server.is_empty(), "relay-reordering");
+    obs.class_if(c.completion_optional && !c.drop_to_client.is_empty(), "relay-losses-completion-optional");
     let r = match run_relay(dir, c) {
         Err((sig, d)) if sig != "harness" => match run_relay(dir, c) {
             Ok(()) => {
@@ -367,11 +425,44 @@ pub fn relay_cases(thorough: bool) -> Vec<RelayCase> {
             vec![(vec![], vec![]), (vec![1], vec![]), (vec![2], vec![]), (vec![3], vec![]), (vec![], vec![2]), (vec![], vec![3])]
         };
         for (tc, ts) in single {
-            out.push(RelayCase { upload, drop_to_client: tc.clone(), drop_to_server: ts.clone(), blk: 64, ws: 1, len: 64 * 5 + 7 });
+            out.push(RelayCase { upload, drop_to_client: tc.clone(), drop_to_server: ts.clone(), blk: 64, ws: 1, len: 64 * 5 + 7, dup_to_client: vec![], dup_to_server: vec![], swap_to_client: vec![], swap_to_server: vec![], completion_optional: false });
             if thorough {
-                out.push(RelayCase { upload, drop_to_client: tc, drop_to_server: ts, blk: 512, ws: 3, len: 512 * 7 });
+                out.push(RelayCase { upload, drop_to_client: tc, drop_to_server: ts, blk: 512, ws: 3, len: 512 * 7, dup_to_client: vec![], dup_to_server: vec![], swap_to_client: vec![], swap_to_server: vec![], completion_optional: false });
             }
         }
     }
     out
+}
+
+/// random duplication and reordering (no loss, or losses with completion optional) between the real binaries
+pub fn relay_strategy(upload: bool) -> proptest::strategy::BoxedStrategy<RelayCase> {
+    use proptest::prelude::*;
+    let idx = || proptest::collection::vec(1u32..14, 0..4);
+    (idx(), idx(), idx(), idx(), prop::sample::select(vec![(64u32, 1u16), (64, 3), (512, 2), (1024, 4), (8, 5)]), 2usize..9, 0usize..60, proptest::collection::vec(2u32..10, 0..3), any::<bool>())
+        .prop_map(move |(dc, ds, sc, ss, (blk, ws), blocks, rem, drops, lossy)| {
+            // download: datagram 1 towards the server is the ACK 0 of the handshake - leave it alone
+            let fix = |v: Vec<u32>| -> Vec<u32> { if upload { v } else { v.into_iter().filter(|k| *k != 1).collect() } };
+            let sc_any = sc.is_empty();
+            let ss_any = fix(ss.clone()).is_empty();
+            RelayCase {
+                upload,
+                drop_to_client: if lossy { drops.clone() } else { vec![] },
+                drop_to_server: vec![],
+                blk,
+                ws,
+                len: blocks * blk as usize + rem % blk as usize,
+                dup_to_client: dc,
+                dup_to_server: fix(ds),
+                swap_to_client: sc,
+                swap_to_server: fix(ss),
+                // a reordered block is discarded by an in-order receiver, i.e. it acts like a loss: completion is only demanded for pure duplication
+                completion_optional: lossy || !sc_any || !ss_any,
+            }
+        })
+        .boxed()
+}
+
+pub fn run_relay_random(ctx: &Ctx, upload: bool) {
+    let dirs = DirPool::new(ctx, "c04r");
+    explore_n(ctx, if upload { "wire-relay-upload" } else { "wire-relay-download" }, ctx.tier.pick(64, 4_000), shards(), 12, move || relay_strategy(upload), |c: &RelayCase, o| dirs.with(|d| judge_relay(d, c, o)));
 }
